@@ -358,7 +358,7 @@ class NetWorld(World):
                 return {"op": "inspect_edge", "s": s, "e": r.randrange(64),
                         "how": r.choice(["constraint", "wkt", "length", "bbox", "bbox", "net_bbox", "copy", "noise",
                                          "simplify", "tail", "all_copy", "all_copy", "net_deepcopy",
-                                         "net_deepcopy", "reverse_abs", "reverse_abs"])}
+                                         "net_deepcopy", "reverse_abs", "reverse_abs", "net_plot", "net_stats"])}
             u = r.random()
             if u < self.cfg.get("reweigh", 0) and not self.cfg["road"]:
                 return {"op": "set_weight", "s": s, "e": r.randrange(64),
@@ -1364,6 +1364,19 @@ class NetWorld(World):
                 # the box belongs to the caller, who enlarges and moves it (a map frame)
                 _, exc = self.call(lambda: (bb.addMargin(0.05), bb.translate(1.5, -2.0)))
                 self.probe("caller_edits_returned_bbox_in_place")
+        elif how == "net_plot":
+            import matplotlib.pyplot as plt
+            try:
+                _, exc = self.call(net.plot)
+            finally:
+                plt.close("all")
+            if isinstance(exc, Exception):
+                exc = None
+        elif how == "net_stats":
+            _, exc = self.call(lambda: (net.totalLength(), net.getNumberOfVertices(), str(net)[:10],
+                                        [net.degree(i) for i in net.getNodesId()][:3]))
+            if isinstance(exc, Exception):
+                exc = None              # (what these summaries accept is not this world's subject)
         elif how == "reverse_abs":
             # another user wants the road in the other direction, with abscissas of its own
             from tracklib.algo.cinematics import computeAbsCurv as _cabs
